@@ -80,8 +80,21 @@ Ltac inst_i_tac HP Ex Hk i :=
     let xo := fresh "xo" in let Exo := fresh "Exo" in let Ok := fresh "Ok" in let HPx := fresh "HPx" in
     destruct (Hk i xo' Hxo) as (xo & Exo & Ok); pose proof (HP _ _ _ Ex Exo) as HPx;
     destruct HPx as [Pcommit Pstop Pexited Palive Pcode Pdecided Prelaunch Pgaveup Prestarts Ppre Pfstopped Prunctx Pendst Pgone Pnostop Pstatus];
-    okeep_use Ok; constructor
+    destruct Ok as (Oa & Ob & Oc & Od & Oe & Of); cbn in Oa, Ob, Oc, Od, Oe, Of; constructor;
+    rewrite ?Oa, ?Ob, ?Oc, ?Od, ?Oe, ?Of
   end.
+
+Ltac wk_intro Hwk :=
+  match goal with
+  | |- W2 _ = false -> _ => let Hw := fresh "Hw" in intros Hw; pose proof (proj1 Hwk Hw)
+  | |- W4 _ = false -> _ => let Hw := fresh "Hw" in intros Hw; pose proof (proj2 Hwk Hw); pose proof (proj1 Hwk (W4_W2 _ Hw))
+  | _ => idtac
+  end.
+
+Ltac state_fin Hwk Ev :=
+  unfold set_pc; autorewrite with sup; rewrite ?st_write_status, ?restarts_write_status; cbn; rewrite ?N.eqb_refl, ?Ev;
+  try match goal with E : pc _ = _ |- _ => rewrite E in * end;
+  wk_intro Hwk; try (p2_clause; fail).
 
 Lemma P2all_state s o th i s0 s' : Rc cs s o -> Rd o -> P2all s o -> step_state s th i s0 = Some s' ->
   P2all s' (obs_step cs o (th, EState i s0)).
@@ -115,9 +128,112 @@ Proof.
         * intros m. apply restarts_write_status.
     - (* Running *)
       intros j y' yo' Hy' Hyo'. unfold set_pc in Hy'. autorewrite with sup in Hy'. destruct (N.eqb_spec i j) as [<-|Hji].
-      + rewrite Ex in Hy'. cbn in Hy'. injection Hy' as <-. inst_i_tac HP Ex Hk i.
-        all: unfold set_pc; autorewrite with sup; rewrite ?st_write_status, ?restarts_write_status, ?N.eqb_refl, ?Ev.
-        all: match goal with E : pc _ = _ |- _ => rewrite E in * end.
-        all: try (p2_clause; fail).
-(*STOP*)
+      + rewrite Ex in Hy'. cbn in Hy'. injection Hy' as <-. inst_i_tac HP Ex Hk i. all: state_fin Hwk Ev.
+      + eapply (P2all_status_others s o _ o' i x (nm x) SRunning); eauto using ikeep_refl.
+        * right; discriminate.
+        * intros m. unfold set_pc. autorewrite with sup. apply st_write_status.
+        * intros m. unfold set_pc. autorewrite with sup. apply restarts_write_status.
+    - (* Restarting *)
+      intros j y' yo' Hy' Hyo'. unfold set_pc in Hy'. autorewrite with sup in Hy'. destruct (N.eqb_spec i j) as [<-|Hji].
+      + rewrite Ex in Hy'. cbn in Hy'. injection Hy' as <-. inst_i_tac HP Ex Hk i. all: state_fin Hwk Ev.
+        intros c0 [[=]|[[= <-]|[=]]]. apply (Pdecided c). now left.
+      + eapply (P2all_status_others s o _ o' i x (nm x) SRestarting); eauto using ikeep_refl.
+        * right; discriminate.
+        * intros m. unfold set_pc. autorewrite with sup. apply st_write_status.
+        * intros m. unfold set_pc. autorewrite with sup. apply restarts_write_status.
+    - (* the terminal status inside onProcessEnd *)
+      apply status_eqb_eq in E3. subst s0.
+      intros j y' yo' Hy' Hyo'. unfold set_pc, end_finish in Hy'. autorewrite with sup in Hy'. destruct (N.eqb_spec i j) as [<-|Hji].
+      + rewrite Ex in Hy'. cbn in Hy'. injection Hy' as <-. inst_i_tac HP Ex Hk i. all: unfold end_finish; state_fin Hwk Ev.
+        intros c0 [[=]|[b0 Hb0]]. injection Hb0 as -> <-. destruct (Pgaveup c) as (A & B); [right; eauto|]. split; [exact A|].
+        unfold GaveUp in *. cbn. autorewrite with sup. rewrite restarts_write_status, ?Ob. exact B.
+      + eapply (P2all_status_others s o _ o' i x (nm x) s1); eauto using ikeep_refl.
+        * left. match goal with E : pc x = _ |- _ => rewrite E end. reflexivity.
+        * intros m. unfold set_pc, end_finish. autorewrite with sup. apply st_write_status.
+        * intros m. unfold set_pc, end_finish. autorewrite with sup. apply restarts_write_status. }
+  destruct (spc (get_thread s th)) eqn:Es; try (apply Hgen; exact H).
+  - (* SRun: stopProcess writes Terminating *)
+    break_step H. subst s'. eapply P2all_frame; [exact HP| |exact Hk|exact Hwk].
+    destruct cancel; sback_close.
+  - (* SPendE *)
+    break_step H. subst s'. eapply P2all_frame; [exact HP| |exact Hk|exact Hwk]. sback_close.
+Qed.
+
+(* ---- onProcessEnd ---------------------------------------------------------------------------------------- *)
+Lemma procend_shape o th i s0 : forall j xo', get j (oi (obs_step cs o (th, EProcEnd i s0))) = Some xo' ->
+  exists xo, get j (oi o) = Some xo /\
+    okeep (if N.eqb i j then xo <| o_endst := Some s0 |> <| o_commit := if opt_eqb N.eqb (get th (o_th o)) (Some i) then false else o_commit xo |> else xo) xo'.
+Proof. intros j xo'. unfold obs_step. cbn [ev_inst fst snd]. intros H. eapply obs_upd_shape in H; eauto. Qed.
+
+Ltac comb_tac2 HP i E0 Hshape Hwk :=
+  let j9 := fresh "j" in let x9 := fresh "x" in let xo9 := fresh "xo" in let Hx9 := fresh "Hx" in let Hxo9 := fresh "Hxo" in
+  let xo := fresh "xo" in let Exo := fresh "Exo" in let Ok := fresh "Ok" in let Hne := fresh "Hne" in let HPx := fresh "HPx" in
+  intros j9 x9 xo9 Hx9 Hxo9; unfold set_pc in Hx9; autorewrite with sup in Hx9; cbn [fst snd] in Hx9;
+  destruct (Hshape j9 xo9 Hxo9) as (xo & Exo & Ok);
+  destruct (N.eqb_spec i j9) as [<-|Hne];
+  [ rewrite ?E0 in Hx9; cbn in Hx9; injection Hx9 as <-; pose proof (HP _ _ _ E0 Exo) as HPx; p2_pre;
+    destruct HPx as [Pcommit Pstop Pexited Palive Pcode Pdecided Prelaunch Pgaveup Prestarts Ppre Pfstopped Prunctx Pendst Pgone Pnostop Pstatus];
+    destruct Ok as (Oa & Ob & Oc & Od & Oe & Of); rewrite ?N.eqb_refl in *; cbn in Oa, Ob, Oc, Od, Oe, Of; constructor;
+    rewrite ?Oa, ?Ob, ?Oc, ?Od, ?Oe, ?Of
+  | eapply P2_frame; [apply (HP j9 x9 xo Hx9 Exo)|apply ikeep_refl|exact Ok|apply vrel_vkeep; vrel_tac|exact Hwk] ].
+
+Ltac gaveup_tac :=
+  let c0 := fresh "c" in let Hc := fresh "Hc" in let b9 := fresh "b" in
+  intros c0 Hc; cbn in Hc; destruct Hc as [Hc|[b9 Hc]]; try discriminate Hc; inversion Hc; subst;
+  match goal with Pg : forall c, _ \/ _ -> o_code _ = Some c /\ GaveUp _ _ _ c |- _ =>
+    let A := fresh in let B := fresh in
+    edestruct Pg as (A & B); [solve [left; reflexivity | right; eexists; reflexivity]|];
+    split; [exact A|]; unfold GaveUp in *; cbn; unfold set_pc, end_finish; autorewrite with sup;
+    repeat match goal with Hq : o_stopreq _ = o_stopreq _ |- _ => rewrite Hq end; exact B
+  end.
+
+Ltac comb_fin Hwk :=
+  try match goal with E : pc _ = _ |- _ => rewrite E in * end;
+  rewrite ?N.eqb_refl in *; wk_intro Hwk; try (p2_clause; fail).
+
+Lemma P2all_procend_entry s o th i s0 s' : Rc cs s o -> Rt s o -> P2all s o -> step_procend s th i s0 true = Some s' ->
+  P2all s' (obs_step cs o (th, EProcEnd i s0)).
+Proof.
+  intros HRc HRt HP H. pose proof (wkeep_step cs o (th, EProcEnd i s0)) as Hwk.
+  pose proof (procend_shape o th i s0) as Hshape.
+  set (o' := obs_step cs o (th, EProcEnd i s0)) in *. clearbody o'.
+  unfold step_procend in H. destruct (get i (insts s)) as [x|] eqn:Ex; [|discriminate]. cbv zeta in H.
+  assert (Hown : opt_eqb N.eqb (get th (thinst s)) (Some i) = opt_eqb N.eqb (get th (o_th o)) (Some i))
+    by now rewrite (rc_th _ _ _ HRc).
+  assert (Hsp : spc (get_thread s th) = SPend i -> o_stopreq (oi_get o i) = true) by (apply (rt_spend _ _ HRt)).
+  break_step H; subst s'; split_andb; repeat match goal with Hq : i = ?k |- _ => subst k end;
+    comb_tac2 HP i Ex Hshape Hwk; comb_fin Hwk; try (gaveup_tac; fail).
+  - assert (Hsr : o_stopreq xo0 = true) by (rewrite <- (oi_get_some _ _ _ Exo); apply Hsp; reflexivity).
+    intros Hc. exfalso. rewrite Pstop in Hc by assumption. discriminate.
+  - assert (Hsr : o_stopreq xo0 = true) by (rewrite <- (oi_get_some _ _ _ Exo); apply Hsp; reflexivity).
+    intros c Hc. destruct (Pgaveup c Hc) as (A & B). split; [exact A|]. left. congruence.
+  - assert (Hsr : o_stopreq xo0 = true) by (rewrite <- (oi_get_some _ _ _ Exo); apply Hsp; reflexivity).
+    intros _. now left.
+Qed.
+
+Lemma P2all_procend_exit s o th i s0 s' : Rc cs s o -> P2all s o -> step_procend s th i s0 false = Some s' ->
+  P2all s' (obs_step cs o (th, EProcEnded i s0)).
+Proof.
+  intros HRc HP H. pose proof (wkeep_step cs o (th, EProcEnded i s0)) as Hwk.
+  pose proof (obs_step_keep cs o th (EProcEnded i s0) eq_refl) as Hk.
+  pose proof (keep_shape _ _ i Hk) as Hshape.
+  set (o' := obs_step cs o (th, EProcEnded i s0)) in *. clearbody o'.
+  unfold step_procend in H. destruct (get i (insts s)) as [x|] eqn:Ex; [|discriminate]. cbv zeta in H.
+  assert (Hgen : (check opt_eqb N.eqb (get th (thinst s)) (Some i);
+                  match pc x with
+                  | IInEnd s1 c true =>
+                      check status_eqb s0 s1;
+                      Some (set_pc i (match s1 with
+                                      | SSkipped => IProjEnd c true
+                                      | SError => IRunRet (Some 1%Z)
+                                      | _ => IRunRet None
+                                      end) s)
+                  | _ => None
+                  end) = Some s' -> P2all s' o').
+  { clear H. intros H. break_step H; subst s'.
+    all: comb_tac2 HP i Ex Hshape Hwk; comb_fin Hwk; try (gaveup_tac; fail). }
+  destruct (spc (get_thread s th)) eqn:Es; try (apply Hgen; exact H).
+  break_step H. subst s'. eapply P2all_frame; [exact HP| |exact Hk|exact Hwk]. sback_close.
+Qed.
+
 End D.
